@@ -156,6 +156,56 @@ fn scan_month_end(mi: usize, cfg: &Cfg, log: &mut Log) {
   }
 }
 
+/// one history operation at instant a: arithmetic towards a related instant, or a Julian-date conversion
+fn history_op(a: i64, rng: &mut Rng) -> (String, Vec<String>, u64) {
+  let mut bad = vec![];
+  let st = st_of_abs(a);
+  match rng.below(6) {
+    0 | 1 => {
+      let t = crate::history::related_instant(rng, a).clamp(LO, HI);
+      let label = format!("next({}, {:+})", fmt_abs(a), t - a);
+      let got = abs_sec_of(&st.next((t - a) as isize));
+      if got != Some(t) {
+        bad.push(format!("{:?}, expected {}", got.map(fmt_abs), fmt_abs(t)));
+      }
+      (label, bad, 1)
+    }
+    2 | 3 => {
+      let t = crate::history::related_instant(rng, a).clamp(LO, HI);
+      let label = format!("subtract({}, {})", fmt_abs(t), fmt_abs(a));
+      let tt = st_of_abs(t);
+      let n = t - a;
+      let got = (tt.subtract(st) as i64, st.subtract(tt) as i64, tt.is_before(st), tt.is_after(st));
+      if got != (n, -n, n < 0, n > 0) {
+        bad.push(format!("{:?}, expected {:?}", got, (n, -n, n < 0, n > 0)));
+      }
+      (label, bad, 1)
+    }
+    4 => {
+      let label = format!("jd-roundtrip({})", fmt_abs(a));
+      let jd = st.get_julian_day();
+      let want = a.div_euclid(86400) as f64 - 0.5 + a.rem_euclid(86400) as f64 / 86400.0;
+      let got = abs_sec_of(&jd.get_solar_time());
+      if got != Some(a) || (jd.get_day() - want).abs() > 1e-8 {
+        bad.push(format!("Julian date {} back {:?}, expected {} back {}", jd.get_day(), got.map(fmt_abs), want, fmt_abs(a)));
+      }
+      (label, bad, 1)
+    }
+    _ => {
+      // a fractional Julian date up to 0.45 s before / after the second, and the day it belongs to
+      let off = *rng.pick(&[-0.45f64, -0.2, 0.0, 0.2, 0.45]);
+      let label = format!("from-jd({}{:+}s)", fmt_abs(a), off);
+      let jd = a.div_euclid(86400) as f64 - 0.5 + (a.rem_euclid(86400) as f64 + off) / 86400.0;
+      let j = tyme4rs::tyme::jd::JulianDay::from_julian_day(jd);
+      let got = (abs_sec_of(&j.get_solar_time()), dn_of(&j.get_solar_day()));
+      if got != (Some(a), Some(a.div_euclid(86400))) {
+        bad.push(format!("instant {:?} on day {:?}, expected {}", got.0.map(fmt_abs), got.1.map(cal::fmt_dn), fmt_abs(a)));
+      }
+      (label, bad, 1)
+    }
+  }
+}
+
 pub fn run(cfg: &Cfg) -> (Log, Meta) {
   let mut log = Log::new();
   if let Err(e) = cal::self_test() {
@@ -167,6 +217,9 @@ pub fn run(cfg: &Cfg) -> (Log, Meta) {
   let blocks = total / per_block;
   log.merge(par_range(blocks, 1, |b, l| arithmetic_block(b, per_block, cfg, &bounds, l)));
   log.merge(par_range(cal().month_first.len(), 64, |mi, l| scan_month_end(mi, cfg, l)));
+  let nh = cfg.tier.pick(40_000usize, 800_000usize);
+  log.merge(par_range(nh, 200, |i, l| crate::history::instant_walk("C12", "a sequence of clock operations at related instants on one thread", i, cfg.seed, LO + 2, HI - 2, l, history_op)));
+  log.floor("history.answers_judged", cfg.tier.pick(350_000, 7_000_000));
   log.floor("clock.day_crossings", cfg.tier.pick(50_000, 1_000_000));
   log.floor("clock.year_crossings", cfg.tier.pick(10_000, 500_000));
   log.floor("clock.crossings_of_the_1582_gap", cfg.tier.pick(1_000, 50_000));
@@ -174,10 +227,12 @@ pub fn run(cfg: &Cfg) -> (Log, Meta) {
   log.floor("jd.every_day_midnight_carry", 5_000_000);
   let meta = Meta {
     rule: format!(
-      "{} seeded (instant, offset) pairs: instants uniform over 0001..9999 (3/4) or within +-100,000 s of {} boundary instants (1/4: range ends, 1582-10-04/15, leap days, month/year ends at carry seconds); offsets from +-100 s up to +-1e9 s, exact unit multiples, and to the next/previous midnight; each pair checks next, subtract both ways, the four order predicates, the Julian-date round trip and the Julian-date value. Carry scan (exhaustive in both tiers): for each of the 119,988 month ends the times 23:59:59, hh:59:59, 12:00:00 and a random mm:59, plus 23:59:59 on the month's first and a random inner day{}, and 23:59:59 on every civil day, each x 15 fractional offsets -0.6..+0.99 s through JulianDay::get_solar_time (valid instant within 0.5 s + 2e-4 s float slack). distinct_nontrivial = distinct (instant, offset) pairs plus month ends.",
+      "{} seeded (instant, offset) pairs: instants uniform over 0001..9999 (3/4) or within +-100,000 s of {} boundary instants (1/4: range ends, 1582-10-04/15, leap days, month/year ends at carry seconds); offsets from +-100 s up to +-1e9 s, exact unit multiples, and to the next/previous midnight; each pair checks next, subtract both ways, the four order predicates, the Julian-date round trip and the Julian-date value. Carry scan (exhaustive in both tiers): for each of the 119,988 month ends the times 23:59:59, hh:59:59, 12:00:00 and a random mm:59, plus 23:59:59 on the month's first and a random inner day{}, and 23:59:59 on every civil day, each x 15 fractional offsets -0.6..+0.99 s through JulianDay::get_solar_time (valid instant within 0.5 s + 2e-4 s float slack). Histories: {} seeded single-thread sequences of 6..16 operations (next, subtract both ways with order, Julian-date round trip, a fractional Julian date within 0.45 s of the second) at related instants (same instant, +-1 s, +-2 h, day edges, +-1 day, the same clock time on a related day) - {}. distinct_nontrivial = distinct (instant, offset) pairs plus month ends.",
       blocks * per_block,
       bounds.len(),
-      if cfg.tier == Tier::Thorough { " and a random hh:59:59 and hh:mm:59 on every civil day" } else { "" }
+      if cfg.tier == Tier::Thorough { " and a random hh:59:59 and hh:mm:59 on every civil day" } else { "" },
+      nh,
+      crate::history::WALK_TEXT
     ),
     assumptions: vec!["absolute second = harness day number * 86400 + second of day".into(), "Julian dates whose rounded instant would fall outside 0001-01-01..9999-12-31 are not asked".into()],
     exhaustive: false,
